@@ -1775,14 +1775,16 @@ fn escape_scalar_string(value: &[u8], start: usize, end: usize, json: &mut Strin
     let mut last_start = start;
     for i in start..end {
         // add backslash for escaped characters.
-        let c = match value[i] {
-            0x5C => "\\\\",
-            0x22 => "\\\"",
-            0x08 => "\\b",
-            0x0C => "\\f",
-            0x0A => "\\n",
-            0x0D => "\\r",
-            0x09 => "\\t",
+        let c: Cow<'_, str> = match value[i] {
+            0x5C => "\\\\".into(),
+            0x22 => "\\\"".into(),
+            0x08 => "\\b".into(),
+            0x0C => "\\f".into(),
+            0x0A => "\\n".into(),
+            0x0D => "\\r".into(),
+            0x09 => "\\t".into(),
+            // other control characters must be escaped as well.
+            b @ 0x00..=0x1F => format!("\\u{:04x}", b).into(),
             _ => {
                 continue;
             }
@@ -1791,7 +1793,7 @@ fn escape_scalar_string(value: &[u8], start: usize, end: usize, json: &mut Strin
             let val = String::from_utf8_lossy(&value[last_start..i]);
             json.push_str(&val);
         }
-        json.push_str(c);
+        json.push_str(&c);
         last_start = i + 1;
     }
     if last_start < end {
